@@ -184,4 +184,331 @@ theorem SessCfg.rounds_sound (c : SessCfg) (hg : c.Good) :
     rw [encodeRound3_eq _ _ hm3, Res.ok_bind]
     exact decodeRound3_encode _ _ hm3 _ (encodeRound3_eq _ _ hm3)
 
+/-! ## histories with failing steps (any round functions) -/
+
+theorem Proc.stepD_other (cfg : Cfg T) (st : Proc T) (e : Ev) (j : Nat) (h : j ≠ e.sess) :
+    Proc.stepD cfg st e j = st j := by
+  unfold Proc.stepD
+  cases Proc.stepResD cfg st e with
+  | none => rfl
+  | some r =>
+    cases r with
+    | ok s' => simp [h]
+    | error => rfl
+    | panic => rfl
+
+/-- A step that does not succeed leaves the whole process as it was. -/
+theorem Proc.stepD_failed (cfg : Cfg T) (st : Proc T) (e : Ev) (h : Proc.okAt cfg st e = false) :
+    Proc.stepD cfg st e = st := by
+  unfold Proc.okAt at h
+  unfold Proc.stepD
+  split
+  · rename_i s' hs
+    rw [hs] at h
+    cases h
+  · rfl
+
+/-- An undisturbed event is a step of the failure-free model. -/
+theorem Proc.stepD_clean (cfg : Cfg T) (st : Proc T) (e : Ev) (h : e.dist = none) :
+    Proc.stepD cfg st e = Proc.step cfg st (e.sess, e.act) := by
+  funext j
+  have hres : Proc.stepResD cfg st e = (st e.sess).stepRes (cfg e.sess) e.act := by
+    simp [Proc.stepResD, Sess.stepResD, h]
+  unfold Proc.stepD Proc.step Sess.step
+  rw [hres]
+  by_cases hj : j = e.sess
+  · subst hj
+    cases hr : (st e.sess).stepRes (cfg e.sess) e.act with
+    | none => simp
+    | some r => cases r <;> simp
+  · cases hr : (st e.sess).stepRes (cfg e.sess) e.act with
+    | none => simp [hj]
+    | some r => cases r <;> simp [hj]
+
+theorem Proc.runD_cons (cfg : Cfg T) (st : Proc T) (e : Ev) (es : List Ev) :
+    Proc.runD cfg st (e :: es) = Proc.runD cfg (Proc.stepD cfg st e) es := rfl
+
+/-- A history is the history of its successful events. -/
+theorem Proc.runD_effective (cfg : Cfg T) (sched : List Ev) :
+    ∀ st : Proc T, Proc.runD cfg st sched = Proc.runD cfg st (Proc.effective cfg st sched) := by
+  induction sched with
+  | nil => intro st; rfl
+  | cons e es ih =>
+    intro st
+    by_cases hok : Proc.okAt cfg st e = true
+    · have : Proc.effective cfg st (e :: es) = e :: Proc.effective cfg (Proc.stepD cfg st e) es := by
+        simp [Proc.effective, hok]
+      rw [this, Proc.runD_cons, Proc.runD_cons, ← ih]
+    · have hok' : Proc.okAt cfg st e = false := by simpa using hok
+      have : Proc.effective cfg st (e :: es) = Proc.effective cfg st es := by
+        simp [Proc.effective, hok']
+      rw [this, Proc.runD_cons, Proc.stepD_failed cfg st e hok', ← ih]
+
+theorem Proc.runD_frame (cfg : Cfg T) (sched : List Ev) (j : Nat) :
+    ∀ st : Proc T, (∀ e ∈ sched, e.sess ≠ j) → Proc.runD cfg st sched j = st j := by
+  induction sched with
+  | nil => intro st _; rfl
+  | cons e es ih =>
+    intro st h
+    rw [Proc.runD_cons, ih _ (fun e' he' => h e' (by simp [he']))]
+    exact Proc.stepD_other cfg st e j (fun h' => h e (by simp) h'.symm)
+
+theorem cleanSched_cons_clean (e : Ev) (es : List Ev) (h : e.dist = none) :
+    cleanSched (e :: es) = (e.sess, e.act) :: cleanSched es := by
+  simp [cleanSched, h]
+
+theorem cleanSched_cons_dist (e : Ev) (es : List Ev) (h : e.dist.isSome = true) :
+    cleanSched (e :: es) = cleanSched es := by
+  cases hd : e.dist with
+  | none => rw [hd] at h; cases h
+  | some d => simp [cleanSched, hd]
+
+/-- FAILURE ERASURE.  When every disturbed event fails where it runs, the
+history ends in the state of the failure-free history of its undisturbed
+events. -/
+theorem Proc.runD_erase (cfg : Cfg T) (sched : List Ev) :
+    ∀ st : Proc T, Proc.DistFail cfg st sched → Proc.runD cfg st sched = Proc.run cfg st (cleanSched sched) := by
+  induction sched with
+  | nil => intro st _; rfl
+  | cons e es ih =>
+    intro st hf
+    obtain ⟨h1, h2⟩ := hf
+    rw [Proc.runD_cons, ih _ h2]
+    cases hd : e.dist with
+    | none =>
+      rw [cleanSched_cons_clean e es hd, Proc.stepD_clean cfg st e hd]
+      rfl
+    | some d =>
+      have hs : e.dist.isSome = true := by simp [hd]
+      rw [cleanSched_cons_dist e es hs, Proc.stepD_failed cfg st e (h1 hs)]
+
+/-! ### which disturbances the sha2pc rounds reject whatever the state -/
+
+theorem Res.bind_ne_ok_left {α β : Type} (r : Res α) (f : α → Res β) (h : ∀ a, r ≠ .ok a) (b : β) :
+    (r >>= f) ≠ .ok b := by
+  cases r with
+  | ok a => exact absurd rfl (h a)
+  | error => intro h'; cases h'
+  | panic => intro h'; cases h'
+
+theorem Res.bind_ne_ok_right {α β : Type} (r : Res α) (f : α → Res β) (h : ∀ a b, f a ≠ .ok b) (b : β) :
+    (r >>= f) ≠ .ok b := by
+  cases r with
+  | ok a => exact h a b
+  | error => intro h'; cases h'
+  | panic => intro h'; cases h'
+
+theorem mutate_length_ne (mu : Nat) (bs : Bytes) (h : 0 < bs.length) : (mutate mu bs).length ≠ bs.length := by
+  unfold mutate
+  split
+  · have := Nat.mod_lt (mu / 2) h
+    simp only [List.length_take]
+    omega
+  · simp
+
+/-- A disturbance the sha2pc rounds answer with an error (or a decoder error)
+in EVERY process state: a failing random source, a message whose bytes were cut
+or extended in transit.  (A foreign message is rejected when the session ids
+differ: `foreign_g3_fails`, `foreign_e4_fails`.) -/
+def Ev.unconditional (e : Ev) : Bool :=
+  match e.dist with
+  | none => true
+  | some (.rng _ _) => true
+  | some (.malformed _) => true
+  | some _ => false
+
+theorem okAt_false_of {cfg : Cfg T} {st : Proc T} {e : Ev}
+    (h : ∀ s', Proc.stepResD cfg st e ≠ some (.ok s')) : Proc.okAt cfg st e = false := by
+  unfold Proc.okAt
+  split
+  · rename_i s' hs; exact absurd hs (h s')
+  · rfl
+
+theorem SessCfg.u1_fails (c : SessCfg) (hc : c.P.curve.WF) (mu : Nat) (m : Round1) (m' : Round1) :
+    c.rounds.u1 mu m ≠ .ok m' := by
+  show (encodeRound1 c.P.curve m >>= fun bs => decodeRound1 c.P.curve (mutate mu bs)) ≠ .ok m'
+  cases he : encodeRound1 c.P.curve m with
+  | ok bs =>
+    rw [Res.ok_bind]
+    intro hd
+    have h1 := encodeRound1_length c.P.curve hc m bs he
+    have h2 := encodeRound1_length c.P.curve hc m' _ (encodeRound1_decode c.P.curve _ m' hd).1
+    exact mutate_length_ne mu bs (by omega) (by omega)
+  | error => intro h'; cases h'
+  | panic => intro h'; cases h'
+
+theorem SessCfg.u2_fails (c : SessCfg) (hc : c.P.curve.WF) (hp : c.P.curve.ParitySound) (mu : Nat) (m m' : Round2) :
+    c.rounds.u2 mu m ≠ .ok m' := by
+  show (encodeRound2 c.P.curve m >>= fun bs => decodeRound2 c.P.curve (mutate mu bs)) ≠ .ok m'
+  cases he : encodeRound2 c.P.curve m with
+  | ok bs =>
+    rw [Res.ok_bind]
+    intro hd
+    have h1 := encodeRound2_length c.P.curve hc m bs he
+    have h2 := encodeRound2_length c.P.curve hc m' _ (encodeRound2_decode c.P.curve hp _ m' hd).1
+    exact mutate_length_ne mu bs (by omega) (by omega)
+  | error => intro h'; cases h'
+  | panic => intro h'; cases h'
+
+theorem encodeRound3_length (counts : List Nat) (m : Round3) (bs : Bytes) (he : encodeRound3 counts m = .ok bs) :
+    bs.length = round3Len counts := by
+  unfold encodeRound3 at he
+  split at he; · cases he
+  split at he; · cases he
+  split at he; · cases he
+  split at he; · cases he
+  split at he; · cases he
+  simp only at he
+  split at he
+  · cases he
+  · rename_i hl
+    cases he
+    exact Decidable.of_not_not hl
+
+theorem decodeRound3_length (counts : List Nat) (data : Bytes) (m : Round3) (h : decodeRound3 counts data = .ok m) :
+    data.length = round3Len counts := by
+  unfold decodeRound3 at h
+  split at h
+  · cases h
+  · rename_i hne; exact Decidable.of_not_not hne
+
+theorem round3Len_pos (counts : List Nat) : 0 < round3Len counts := by
+  simp [round3Len]
+  omega
+
+theorem SessCfg.u3_fails (c : SessCfg) (mu : Nat) (m m' : Round3) : c.rounds.u3 mu m ≠ .ok m' := by
+  show (encodeRound3 (countsOf c.P.circ) m >>= fun bs => decodeRound3 (countsOf c.P.circ) (mutate mu bs)) ≠ .ok m'
+  cases he : encodeRound3 (countsOf c.P.circ) m with
+  | ok bs =>
+    rw [Res.ok_bind]
+    intro hd
+    have h1 := encodeRound3_length _ m bs he
+    have h2 := decodeRound3_length _ _ m' hd
+    have h3 := round3Len_pos (countsOf c.P.circ)
+    exact mutate_length_ne mu bs (by omega) (by omega)
+  | error => intro h'; cases h'
+  | panic => intro h'; cases h'
+
+theorem Res.error_ne_ok {α : Type} (a : α) : (Res.error : Res α) ≠ .ok a := by intro h; cases h
+
+theorem some_ne_some_of {α : Type} {a b : α} (h : a ≠ b) : some a ≠ some b := by
+  intro h'; injection h' with h'; exact h h'
+
+/-- A round whose random source fails returns no value, whatever the session
+holds and whichever round it is. -/
+theorem SessCfg.rng_fails (c : SessCfg) (st : Nat → Sess sha2pcTy) (s : Sess sha2pcTy) (a : Act) (off kind : Nat)
+    (s' : Sess sha2pcTy) : s.stepResD c.rounds st a (some (.rng off kind)) ≠ some (.ok s') := by
+  cases a with
+  | g1 =>
+    apply some_ne_some_of
+    exact Res.bind_ne_ok_left _ _ (fun r => Res.error_ne_ok r) s'
+  | e2 x =>
+    simp only [Sess.stepResD]
+    cases s.m1 with
+    | none => simp
+    | some m1 =>
+      apply some_ne_some_of
+      exact Res.bind_ne_ok_right _ _ (fun m b => Res.bind_ne_ok_left _ _ (fun r => Res.error_ne_ok r) b) s'
+  | g3 x y =>
+    simp only [Sess.stepResD]
+    cases s.gs with
+    | none => simp
+    | some gs =>
+      cases s.m2 with
+      | none => simp
+      | some m2 =>
+        apply some_ne_some_of
+        exact Res.bind_ne_ok_right _ _ (fun g b => Res.bind_ne_ok_right _ _
+          (fun m b => Res.bind_ne_ok_left _ _ (fun r => Res.error_ne_ok r) b) b) s'
+  | e4 x y => simp [Sess.stepResD]
+
+/-- A message whose bytes were cut or extended in transit is rejected by the
+decoder of the receiving round: the round does not run. -/
+theorem SessCfg.malformed_fails (c : SessCfg) (hc : c.P.curve.WF) (hp : c.P.curve.ParitySound)
+    (st : Nat → Sess sha2pcTy) (s : Sess sha2pcTy) (a : Act) (mu : Nat) (s' : Sess sha2pcTy) :
+    s.stepResD c.rounds st a (some (.malformed mu)) ≠ some (.ok s') := by
+  cases a with
+  | g1 => simp [Sess.stepResD]
+  | e2 x =>
+    simp only [Sess.stepResD]
+    cases s.m1 with
+    | none => simp
+    | some m1 =>
+      apply some_ne_some_of
+      exact Res.bind_ne_ok_left _ _ (fun m => c.u1_fails hc mu m1 m) s'
+  | g3 x y =>
+    simp only [Sess.stepResD]
+    cases s.gs with
+    | none => simp
+    | some gs =>
+      cases s.m2 with
+      | none => simp
+      | some m2 =>
+        apply some_ne_some_of
+        exact Res.bind_ne_ok_right _ _ (fun g b => Res.bind_ne_ok_left _ _ (fun m => c.u2_fails hc hp mu m2 m) b) s'
+  | e4 x y =>
+    simp only [Sess.stepResD]
+    cases s.es with
+    | none => simp
+    | some es =>
+      cases s.m3 with
+      | none => simp
+      | some m3 =>
+        apply some_ne_some_of
+        exact Res.bind_ne_ok_right _ _ (fun g b => Res.bind_ne_ok_left _ _ (fun m => c.u3_fails mu m3 m) b) s'
+
+theorem SessCfg.unconditional_fails (cfg : Nat → SessCfg) (hc : ∀ i, (cfg i).P.curve.WF)
+    (hp : ∀ i, (cfg i).P.curve.ParitySound) (st : Proc sha2pcTy) (e : Ev) (hd : e.dist.isSome = true)
+    (hu : e.unconditional = true) : Proc.okAt (fun i => (cfg i).rounds) st e = false := by
+  apply okAt_false_of
+  intro s'
+  obtain ⟨i, a, d⟩ := e
+  cases d with
+  | none => cases hd
+  | some d =>
+    cases d with
+    | rng off kind => exact (cfg i).rng_fails st (st i) a off kind s'
+    | malformed mu => exact (cfg i).malformed_fails (hc i) (hp i) st (st i) a mu s'
+    | foreignMsg src => cases hu
+    | foreignState src => cases hu
+
+/-- Histories whose disturbances are failing random sources and messages cut
+or extended in transit: every disturbed event fails, from every state. -/
+theorem SessCfg.distFail_of_unconditional (cfg : Nat → SessCfg) (hc : ∀ i, (cfg i).P.curve.WF)
+    (hp : ∀ i, (cfg i).P.curve.ParitySound) (sched : List Ev) :
+    ∀ st : Proc sha2pcTy, (∀ e ∈ sched, e.unconditional = true) → Proc.DistFail (fun i => (cfg i).rounds) st sched := by
+  induction sched with
+  | nil => intro _ _; trivial
+  | cons e es ih =>
+    intro st h
+    exact ⟨fun hd => SessCfg.unconditional_fails cfg hc hp st e hd (h e (by simp)),
+      ih _ (fun e' he' => h e' (by simp [he']))⟩
+
+/-- The round-2 message of ANOTHER session fed to round 3 (in memory): an
+error as soon as the session ids differ. -/
+theorem SessCfg.foreign_g3_fails (c : SessCfg) (st : Nat → Sess sha2pcTy) (s : Sess sha2pcTy) (src : Nat)
+    (gs : GarblerSession) (m2 : Round2) (hgs : s.gs = some gs) (hm : (st src).m2 = some m2) (hsid : m2.sid ≠ gs.sid) :
+    s.stepResD c.rounds st (.g3 false false) (some (.foreignMsg src)) = some .error := by
+  simp only [Sess.stepResD, hgs, hm, thru]
+  have : c.rounds.r3 gs m2 = .error := round3_sid_mismatch c.P gs c.a m2 c.key c.r0 c.inl hsid
+  simp [this]
+
+/-- The round-3 message of another session, or the evaluator state of another
+session, fed to round 4 (in memory): an error as soon as the session ids
+differ. -/
+theorem SessCfg.foreign_e4_fails (c : SessCfg) (st : Nat → Sess sha2pcTy) (s : Sess sha2pcTy) (src : Nat)
+    (es : EvaluatorSession) (m3 : Round3) (hsid : m3.sid ≠ es.sid) :
+    (s.es = some es → (st src).m3 = some m3 →
+      s.stepResD c.rounds st (.e4 false false) (some (.foreignMsg src)) = some .error) ∧
+    ((st src).es = some es → s.m3 = some m3 →
+      s.stepResD c.rounds st (.e4 false false) (some (.foreignState src)) = some .error) := by
+  have : c.rounds.r4 es m3 = .error := round4_sid_mismatch c.P es m3 hsid
+  constructor
+  · intro h1 h2
+    simp only [Sess.stepResD, h1, h2, thru]
+    simp [this]
+  · intro h1 h2
+    simp only [Sess.stepResD, h1, h2, thru]
+    simp [this]
+
 end Mpc.Sha2pc
